@@ -8,6 +8,7 @@ trap 'git -C /repo worktree remove --force "$wt" >/dev/null 2>&1' EXIT
 ( cd "$wt" && /venv/bin/python "$dir/demo.py" >/tmp/demo_$$.out 2>&1 ); echo "demo exit without change: $?"
 git -C "$wt" apply "$dir/patch.diff" || { echo "patch does not apply"; exit 2; }
 ( cd "$wt" && /venv/bin/python "$dir/demo.py" >/tmp/demo_$$.out 2>&1 ); echo "demo exit with change: $? ($(tail -1 /tmp/demo_$$.out | cut -c1-150))"
+[ -n "$BASELINE" ] && echo "baseline with change: $(/verif/tools/baseline.py "$wt" | grep -o "missing: [0-9]*" | head -1)"
 for c in "$pid" "$@"; do
   cp "/verif/evidence/$c.json" "/tmp/evidence_keep_${c}_$$.json" 2>/dev/null
   ( cd /verif && ASV_REPO="$wt" ./check "$c" --tier quick | grep -E "^C[0-9]+ tier|VIOLATION|KNOWN|INFRA" | cut -c1-260 )
